@@ -110,3 +110,6 @@ func vTraceU(comp int, k string, v uint64) {
 		vrt.Trace(k, v)
 	}
 }
+
+// VInstallContractCompressors is the exported entry for harnesses of other packages.
+func VInstallContractCompressors() { vInstallContractCompressors() }
